@@ -24,9 +24,9 @@ RULE = (
     "empties, span present, outcome)."
 )
 SHARDS = {"quick": 16, "thorough": 16}
-TIMEOUT = {"quick": 300, "thorough": 3600}
+TIMEOUT = {"quick": 300, "thorough": 7200}
 MIN_EVALS = {"quick": 8000, "thorough": 200000}
-CASES = {"quick": 260, "thorough": 8000}
+CASES = {"quick": 260, "thorough": 20000}
 ASSUMPTIONS = [
     "transpose of a non-square sub-area is documented as lossy and is not generated; transposition of span attributes is not judged",
     "CSV round trip is judged on tables with >= 2 columns and values whose text does not parse as another type (the loss CSV itself imposes)",
